@@ -68,6 +68,9 @@ func dumpStmtList(b *strings.Builder, list []ast.Stmt, o dumpOpt) {
 		if _, empty := u.(*ast.EmptyStmt); empty {
 			continue
 		}
+		if blk, ok := u.(*ast.BlockStmt); ok && len(blk.List) == 0 {
+			continue // an empty block statement means as little as an empty statement
+		}
 		if !first {
 			b.WriteString(" ")
 		}
@@ -79,6 +82,10 @@ func dumpStmtList(b *strings.Builder, list []ast.Stmt, o dumpOpt) {
 
 // dumpNormNode dumps an already unwrapped node; a block prints as its list.
 func dumpNormNode(b *strings.Builder, u ast.Node, o dumpOpt) {
+	if _, empty := u.(*ast.EmptyStmt); empty {
+		b.WriteString("[]") // same as an empty block (else branch, labeled statement ...)
+		return
+	}
 	if blk, ok := u.(*ast.BlockStmt); ok && blk != nil {
 		dumpStmtList(b, blk.List, o)
 		return
